@@ -243,6 +243,12 @@ func rulePrefix(c *RC) *RuleResult {
 	lenV.Unsigned = true
 	// OnReceive
 	c.prefixCheck(r, c.API["OnReceive"], "OnReceive (index bound, not an old height)", func(s *Site) *Formula {
+		if s.Kind == "write" && s.Loc == "dbft.cache" {
+			// keeping a payload of a FUTURE height for later is the one thing that may happen to a payload whose index
+			// does not fit the list of the height the node is at: that list says nothing about the next one (C05), the
+			// index is judged when the payload is replayed at its own height
+			return fAnd(fNot(lt(height, tBlockIndex)), fOr(lt(vi, lenV), lt(tBlockIndex, height)))
+		}
 		return fAnd(lt(vi, lenV), fNot(lt(height, tBlockIndex)))
 	}, nil)
 	// the liveness note itself
